@@ -139,8 +139,28 @@ pub fn apply_op(pkg: &mut rpm::Package, op: &Op) -> Result<(), (String, String)>
                 Ok(())
             }
             Op::Reparse => {
-                let mut v = Vec::new();
-                pkg.write(&mut v)?;
+                // written either into a Vec or into a writer that accepts at most 11 bytes per
+                // call (what a pipe or socket may do)
+                struct Trickle(Vec<u8>);
+                impl std::io::Write for Trickle {
+                    fn write(&mut self, b: &[u8]) -> std::io::Result<usize> {
+                        let n = b.len().min(11);
+                        self.0.extend_from_slice(&b[..n]);
+                        Ok(n)
+                    }
+                    fn flush(&mut self) -> std::io::Result<()> {
+                        Ok(())
+                    }
+                }
+                let v = if pkg.content.len() % 3 == 1 {
+                    let mut t = Trickle(Vec::new());
+                    pkg.write(&mut t)?;
+                    t.0
+                } else {
+                    let mut v = Vec::new();
+                    pkg.write(&mut v)?;
+                    v
+                };
                 // alternately from a slice and from a small-buffered reader over 5-byte reads
                 *pkg = if v.len() % 2 == 0 {
                     rpm::Package::parse(&mut &v[..])?
